@@ -225,7 +225,6 @@ Proof.
   - destruct K as [K1 K2]. cbn [forallb]. rewrite K2. split; [exact K1|reflexivity].
 Qed.
 
-Definition wf_attr (a : rattr) : Prop := ra_loc a <> [].
 
 Lemma sinvr_uris_ext : forall v s rows, SInvR v s rows -> True.
 Proof. intros. exact I. Qed.
@@ -269,14 +268,14 @@ Proof.
     split; [cbn [map txt]; rewrite Htxt; reflexivity|]. constructor; [constructor|exact Hleg].
 Qed.
 Lemma st_pop_inv : forall c s ds rows, nonwf c -> SInvR (c_v11 c) s (ds :: rows) ->
-  exists uri pfx loc s', st_pop c s = Ok (uri, pfx, loc, s') /\ SInvR (c_v11 c) s' rows.
+  exists uri pfx loc s', st_pop c s = Ok (uri, pfx, loc, s') /\ SInvR (c_v11 c) s' rows /\ sc_uris s' = sc_uris s.
 Proof.
   intros c s ds rows Hc (rid & HI & Hok & Hpre & Hids & Htxt & Hleg).
   destruct rid as [|rd rr]; [discriminate|]. cbn [map] in Htxt. injection Htxt as Ht1 Ht2.
   destruct (inv_popTop (sc_es s) rd rr [] HI) as (r & e' & He & HI').
   exists (r_uri r), (r_pfx r), (r_loc r), (mkScan e' (sc_wf s) (sc_uris s)). split.
   - unfold st_pop, nonwf, bind in *. destruct (c_scanner c); [rewrite He; reflexivity|contradiction|rewrite He; reflexivity].
-  - exists rr. cbn [sc_es sc_uris]. inversion Hids; subst. inversion Hleg; subst.
+  - cbn [sc_uris]. split; [|reflexivity]. exists rr. cbn [sc_es sc_uris]. inversion Hids; subst. inversion Hleg; subst.
     split; [exact HI'|]. split; [exact Hok|]. split; [exact Hpre|]. split; [assumption|]. split; [reflexivity|assumption].
 Qed.
 Lemma st_setTop_inv : forall c s rows uri pfx loc, nonwf c -> SInvR (c_v11 c) s rows ->
@@ -442,7 +441,7 @@ Lemma ig_startTag_spec : forall c s rows pfx loc attrs, nonwf c -> SInvR (c_v11 
     exists e ans, sp_tag (c_v11 c) rows pfx (map sp_of attrs) = Some (e, ans) /\
                   res_ok (sc_uris s') uri e /\ Forall2 (fun x r => res_ok (sc_uris s') (xa_uri x) r) xs ans /\
                   map triple_x xs = map triple_a attrs /\
-                  SInvR (c_v11 c) s' (sp_decls (map sp_of attrs) :: rows)
+                  SInvR (c_v11 c) s' (sp_decls (map sp_of attrs) :: rows) /\ exists q, sc_uris s' = sc_uris s ++ q
   | Err e => ns_error e = true
   end.
 Proof.
@@ -450,7 +449,7 @@ Proof.
   destruct (st_addLevel_inv c s rows Hc HS) as (s1 & E1 & I1 & U1). rewrite E1.
   pose proof (scanRaw_spec c rows attrs s1 [] Hc I1 Hwf) as R.
   destruct (scanRawAttrListforNameSpaces c s1 attrs) as [s2|e]; [|destruct R as [R _]; exact R].
-  destruct R as (L & I2 & _). cbn [app] in I2.
+  destruct R as (L & I2 & Q2). cbn [app] in I2. rewrite U1 in Q2.
   set (ds := sp_decls (map sp_of attrs)) in *. set (rows' := ds :: rows) in *.
   pose proof (resolvePrefix_spec c s2 rows' pfx false Hc I2) as P.
   destruct (resolvePrefix c s2 pfx false) as [uri|e]; [|destruct P as [-> _]; reflexivity].
@@ -469,7 +468,7 @@ Proof.
   split; [exact P|].
   split; [exact (built_resok _ _ _ _ F)|].
   split; [exact (built_triples _ _ _ _ F)|].
-  exact I3.
+  split; [exact I3|exact Q2].
 Qed.
 
 Lemma startTag_sound : forall c s rows pfx loc attrs s' uri xs,
@@ -480,7 +479,17 @@ Lemma startTag_sound : forall c s rows pfx loc attrs s' uri xs,
                 SInvR (c_v11 c) s' (sp_decls (map sp_of attrs) :: rows).
 Proof.
   intros c s rows pfx loc attrs s' uri xs Hc HS Hwf H. rewrite (startTag_nonwf _ _ _ _ _ Hc) in H.
-  pose proof (ig_startTag_spec c s rows pfx loc attrs Hc HS Hwf) as K. rewrite H in K. exact K.
+  pose proof (ig_startTag_spec c s rows pfx loc attrs Hc HS Hwf) as K. rewrite H in K.
+  destruct K as (e & ans & K1 & K2 & K3 & K4 & K5 & _). exists e, ans.
+  split; [exact K1|]. split; [exact K2|]. split; [exact K3|]. split; [exact K4|exact K5].
+Qed.
+Lemma startTag_uris_ext : forall c s rows pfx loc attrs s' uri xs,
+  nonwf c -> SInvR (c_v11 c) s rows -> Forall wf_attr attrs -> startTag c s pfx loc attrs = Ok (s', uri, xs) ->
+  exists q, sc_uris s' = sc_uris s ++ q.
+Proof.
+  intros c s rows pfx loc attrs s' uri xs Hc HS Hwf H. rewrite (startTag_nonwf _ _ _ _ _ Hc) in H.
+  pose proof (ig_startTag_spec c s rows pfx loc attrs Hc HS Hwf) as K. rewrite H in K.
+  destruct K as (e & ans & _ & _ & _ & _ & _ & K). exact K.
 Qed.
 Lemma startTag_rejects : forall c s rows pfx loc attrs,
   nonwf c -> SInvR (c_v11 c) s rows -> Forall wf_attr attrs -> sp_tag (c_v11 c) rows pfx (map sp_of attrs) = None ->
